@@ -520,10 +520,62 @@ func localCellOfLoad(v ssa.Value) *ssa.Alloc {
 	}
 	for _, st := range cellStores(al) {
 		if st.Parent() != al.Parent() {
-			return nil // written by a closure: stores are not all in sight
+			// written by a closure: the stores are not all in sight — unless that closure only ever runs
+			// deferred, and this load comes before the deferred calls run
+			if deferredOnlyClosure(st.Parent()) && (!afterRunDefers(u) || !deferRegisteredBefore(st.Parent(), u.Block())) {
+				continue
+			}
+			return nil
 		}
 	}
 	return al
+}
+
+// deferredOnlyClosure: every use of the closure fn is `defer fn()`.
+func deferredOnlyClosure(fn *ssa.Function) bool {
+	sites := closureSites(fn)
+	if len(sites) == 0 {
+		return false
+	}
+	for _, mc := range sites {
+		for _, r := range *mc.Referrers() {
+			switch x := r.(type) {
+			case *ssa.Defer:
+				if x.Call.Value != ssa.Value(mc) {
+					return false
+				}
+			case *ssa.DebugRef:
+			default:
+				return false
+			}
+		}
+	}
+	return true
+}
+
+// deferRegisteredBefore: some `defer cl()` statement can have run on a way to block b.
+func deferRegisteredBefore(cl *ssa.Function, b *ssa.BasicBlock) bool {
+	for _, mc := range closureSites(cl) {
+		for _, r := range *mc.Referrers() {
+			if d, ok := r.(*ssa.Defer); ok && (d.Block() == b || reachesBlock(d.Block(), b)) {
+				return true
+			}
+		}
+	}
+	return false
+}
+
+// afterRunDefers: the instruction comes after a RunDefers in its block (the reload of a named result).
+func afterRunDefers(in ssa.Instruction) bool {
+	for _, x := range in.Block().Instrs {
+		if x == in {
+			return false
+		}
+		if _, ok := x.(*ssa.RunDefers); ok {
+			return true
+		}
+	}
+	return false
 }
 
 // noStoreBetween: no store into cell can execute after `from` (an instruction
@@ -556,6 +608,9 @@ func noStoreBetweenUpTo(cell *ssa.Alloc, from ssa.Instruction, b *ssa.BasicBlock
 		}
 	}
 	for _, st := range cellStores(cell) {
+		if st.Parent() != b.Parent() {
+			continue
+		}
 		sb := st.Block()
 		if sb == fb {
 			if instrIndexIn(st) > instrIndexIn(from) {
@@ -619,6 +674,18 @@ func loadsEqual(a, b ssa.Value) bool {
 
 // resolveLoad: the value a load of a local cell yields, when one store into the
 // cell dominates the load and nothing is stored in between.
+// resolveLoadDeep follows resolveLoad through copies of the variable into itself (`t = *err; *err = t`).
+func resolveLoadDeep(v ssa.Value) ssa.Value {
+	for i := 0; i < 4; i++ {
+		r := resolveLoad(v)
+		if r == v {
+			return v
+		}
+		v = r
+	}
+	return v
+}
+
 func resolveLoad(v ssa.Value) ssa.Value {
 	cell := localCellOfLoad(v)
 	if cell == nil {
@@ -627,6 +694,9 @@ func resolveLoad(v ssa.Value) ssa.Value {
 	ld := v.(ssa.Instruction)
 	var best *ssa.Store
 	for _, st := range cellStores(cell) {
+		if st.Parent() != ld.Parent() {
+			continue // a store made by a deferred-only closure (see localCellOfLoad): it has not run yet
+		}
 		sb := st.Block()
 		if sb == ld.Block() {
 			if instrIndexIn(st) > instrIndexIn(ld) {
@@ -664,10 +734,12 @@ func cellNilnessAt(cell *ssa.Alloc, b *ssa.BasicBlock) nilState {
 		return nilUnknown
 	}
 	for _, st := range cellStores(cell) {
-		if st.Parent() != cell.Parent() {
+		if st.Parent() != cell.Parent() && !deferredOnlyClosure(st.Parent()) {
 			return nilUnknown
 		}
 	}
+	// (stores made by closures that only run deferred do not count below: this is the state of the
+	// variable when the block is left, before the deferred calls run)
 	// last store in b itself
 	var last *ssa.Store
 	for _, in := range b.Instrs {
@@ -699,6 +771,9 @@ func cellNilnessAt(cell *ssa.Alloc, b *ssa.BasicBlock) nilState {
 	}
 	// a dominating store of a value of known nil-ness with nothing after it
 	for _, st := range cellStores(cell) {
+		if st.Parent() != cell.Parent() {
+			continue
+		}
 		if (st.Block() == b || st.Block().Dominates(b)) && noStoreBetween(cell, st, b) {
 			if ns := nilnessAt(st.Val, b); ns != nilUnknown {
 				return ns
